@@ -70,13 +70,13 @@ FACTS = [
     ("stateKeyFileVersion", "proxy_agent_extension/src/constants.rs", r'pub const STATE_KEY_FILE_VERSION\s*:\s*&str\s*=\s*"([^"]*)"\s*;', "str", "FileVersion", ["C20"]),
     ("stateKeyConstants", ["proxy_agent_extension/src/constants.rs"], r"pub const STATE_KEY_\w+\s*:", "count", 2, ["C20"]),
     ("serviceStateCreations", ["proxy_agent_extension/src/service_main.rs"], r"ServiceState::(?:default|new)\(\)", "count", 1, ["C20"]),
-    ("localMapType", "linux-ebpf/ebpf_cgroup.c", r"__uint\(type,\s*(BPF_MAP_TYPE_\w+)\);[^{}]*\}\s*local_map\s+SEC", "str", "BPF_MAP_TYPE_LRU_HASH", ["C06"]),
-    ("auditMapType", "linux-ebpf/ebpf_cgroup.c", r"__uint\(type,\s*(BPF_MAP_TYPE_\w+)\);[^{}]*\}\s*audit_map\s+SEC", "str", "BPF_MAP_TYPE_LRU_HASH", ["C06"]),
-    ("localMapMaxEntries", "linux-ebpf/ebpf_cgroup.c", r"__uint\(max_entries,\s*(\d+)\);\s*\}\s*local_map\s+SEC", "nat", 200, ["C06"]),
-    ("auditMapMaxEntries", "linux-ebpf/ebpf_cgroup.c", r"__uint\(max_entries,\s*(\d+)\);\s*\}\s*audit_map\s+SEC", "nat", 200, ["C06"]),
-    ("skipSigPutUrl", "proxy_agent/src/common/hyper_client.rs", r'method\s*==\s*hyper::Method::PUT\s*&&\s*url\s*==\s*"([^"]*)"', "str", "/vmagentlog", ["C04", "C15"]),
-    ("skipSigPostUrl", "proxy_agent/src/common/hyper_client.rs", r'method\s*==\s*hyper::Method::POST\s*&&\s*url\s*==\s*"([^"]*)"', "str", "/machine/?comp=telemetrydata", ["C04", "C15"]),
-    ("skipSigClauses", ["proxy_agent/src/common/hyper_client.rs"], r'method\s*==\s*hyper::Method::\w+\s*&&\s*url\s*==\s*"', "count", 2, ["C04", "C15"]),
+    ("localMapType", "linux-ebpf/ebpf_cgroup.c", r"\{[^{}]*__uint\(type,\s*(BPF_MAP_TYPE_\w+)\)[^{}]*\}\s*local_map\s+SEC", "str", "BPF_MAP_TYPE_LRU_HASH", ["C06"]),
+    ("auditMapType", "linux-ebpf/ebpf_cgroup.c", r"\{[^{}]*__uint\(type,\s*(BPF_MAP_TYPE_\w+)\)[^{}]*\}\s*audit_map\s+SEC", "str", "BPF_MAP_TYPE_LRU_HASH", ["C06"]),
+    ("localMapMaxEntries", "linux-ebpf/ebpf_cgroup.c", r"\{[^{}]*__uint\(max_entries,\s*(\d+)\)[^{}]*\}\s*local_map\s+SEC", "nat", 200, ["C06"]),
+    ("auditMapMaxEntries", "linux-ebpf/ebpf_cgroup.c", r"\{[^{}]*__uint\(max_entries,\s*(\d+)\)[^{}]*\}\s*audit_map\s+SEC", "nat", 200, ["C06"]),
+    ("skipSigPutUrl", "proxy_agent/src/common/hyper_client.rs", r'(?:\bmethod\s*==\s*(?:&?hyper::)?Method::PUT\s*&&\s*url\s*==\s*"([^"]*)"|\burl\s*==\s*"([^"]*)"\s*&&\s*method\s*==\s*(?:&?hyper::)?Method::PUT)', "str", "/vmagentlog", ["C04", "C15"]),
+    ("skipSigPostUrl", "proxy_agent/src/common/hyper_client.rs", r'(?:\bmethod\s*==\s*(?:&?hyper::)?Method::POST\s*&&\s*url\s*==\s*"([^"]*)"|\burl\s*==\s*"([^"]*)"\s*&&\s*method\s*==\s*(?:&?hyper::)?Method::POST)', "str", "/machine/?comp=telemetrydata", ["C04", "C15"]),
+    ("skipSigClauses", ["proxy_agent/src/common/hyper_client.rs"], r'(?:\bmethod\s*==\s*(?:&?hyper::)?Method::\w+\s*&&\s*url\s*==\s*"|\burl\s*==\s*"[^"]*"\s*&&\s*method\s*==\s*(?:&?hyper::)?Method::\w+)', "count", 2, ["C04", "C15"]),
     ("keyDirMode", "proxy_agent/src/acl/linux_acl.rs", r"fs::Permissions::from_mode\(\s*0o([0-7]+)\s*\)", "oct", 0o700, ["C12"]),
     ("keyStructDerivesDebug", ["proxy_agent/src/key_keeper/key.rs"],
      r"#\[derive\([^\]]*Debug[^\]]*\)\]\s*(?:#\[[^\]]*\]\s*)*pub struct Key\s*\{", "count", 0, ["C12"]),
@@ -170,7 +170,7 @@ def extract(extra_facts=None):
                 problems.append({"fact": name, "file": rel,
                                  "why": f"pattern matched {len(ms)} times (want 1)", "props": props})
             else:
-                m = ms[0] if isinstance(ms[0], str) else ms[0][0]
+                m = ms[0] if isinstance(ms[0], str) else next((g for g in ms[0] if g), ms[0][0])
                 try:
                     val = parse_value(kind, m)
                 except Exception as e:  # noqa
